@@ -66,9 +66,10 @@ func Static(opts ...StaticOptions) Handler {
 		}
 
 		// Normalize the prefix when provided, we want a leading slash but no trailing
-		// slash ("/").
+		// slash ("/"). A prefix made of slashes only is the root, i.e. no prefix.
+		opts.Prefix = strings.Trim(opts.Prefix, "/")
 		if opts.Prefix != "" {
-			opts.Prefix = "/" + strings.Trim(opts.Prefix, "/")
+			opts.Prefix = "/" + opts.Prefix
 		}
 
 		if opts.Index == "" {
